@@ -45,9 +45,9 @@ func (Engine) Prepare(cfg simkit.RunConfig, scenario any) {
 	sc := scenario.(*Scenario)
 	switch {
 	case sc.Buf != nil:
-		setThresholds(sc.Buf.Th, 0)
+		setThresholds(sc.Buf.Th, 0, 0)
 	case sc.Txn != nil:
-		setThresholds(sc.Txn.Th, sc.Txn.TTLMs)
+		setThresholds(sc.Txn.Th, sc.Txn.TTLMs, sc.Txn.FlushDelayMs)
 	}
 	rand.Seed(int64(cfg.Seed)) // back-off jitter of the code under test (global math/rand)
 }
@@ -136,9 +136,14 @@ func (Engine) Shrink(scenario any) []any {
 			c.Txn.Stores = 1
 			out = append(out, c)
 		}
-		if t.Net.JitterUs > 0 {
+		if t.Net.JitterUs > 137 {
 			c := cloneScenario(sc)
-			c.Txn.Net.JitterUs = 0
+			c.Txn.Net.JitterUs = 137
+			out = append(out, c)
+		}
+		if t.FlushDelayMs > 0 {
+			c := cloneScenario(sc)
+			c.Txn.FlushDelayMs = 0
 			out = append(out, c)
 		}
 	}
